@@ -188,7 +188,7 @@ Section Complete.
   Lemma asg_y i j c : mgs_assign (Yv i j c) = yv i j c. Proof. reflexivity. Qed.
   Lemma asg_piy i j c : mgs_assign (PiY i j c) = yv i j c * gi i. Proof. reflexivity. Qed.
 
-  Hypothesis Hp : Forall2 (fun cons ps => length ps = k /\ Forall (fun p => (p < length cons)%nat) ps /\
+  Hypothesis Hp : Forall2 (fun cons ps => length ps = k /\ Forall (fun p => (p < parts_t I)%nat) ps /\
                                        forall j v, nth_error cons j = Some v -> part_sum ps g j == v) (parts_of I) pss.
   Hypothesis Hmult : (1 <= mult)%nat.
   Hypothesis Hpos : Forall (fun v => 0 <= v) g.
@@ -281,7 +281,7 @@ Section Complete.
 
   Lemma parts_nth nc cons : nth_error (parts_of I) nc = Some cons ->
     let ps := nth nc pss [] in
-    length ps = k /\ Forall (fun p => (p < length cons)%nat) ps /\ forall j v, nth_error cons j = Some v -> part_sum ps g j == v.
+    length ps = k /\ Forall (fun p => (p < parts_t I)%nat) ps /\ forall j v, nth_error cons j = Some v -> part_sum ps g j == v.
   Proof.
     intros H. assert (Hn : (nc < length (parts_of I))%nat) by (apply nth_error_Some; congruence).
     pose proof (Forall2_nth _ _ _ [] [] Hp nc Hn) as HH. cbn beta in HH. rewrite (nth_error_nth _ _ [] H) in HH. exact HH.
@@ -297,7 +297,7 @@ Section Complete.
     rewrite !Nnat.Nat2N.id. destruct (nth_error (parts_of I) nc) as [cons|] eqn:E; [|apply nth_error_None in E; lia].
     destruct (parts_nth nc cons E) as (Hl & Hf & _). cbn zeta in *.
     assert (In (nth n (nth nc pss []) 0%nat) (nth nc pss [])) by (apply nth_In; lia).
-    rewrite Forall_forall in Hf. specialize (Hf _ H). pose proof (len_le_parts_t cons (nth_error_In _ _ E)). lia.
+    rewrite Forall_forall in Hf. exact (Hf _ H).
   Qed.
 
   Lemma cols_ok : Forall (sat_col mgs_assign) (mgs_cols (prod_ub I) (pi_ub I) I k).
@@ -389,9 +389,18 @@ Proof.
 Qed.
 
 (* ---- partition constraints: every element in exactly one (existing) part of the constraint, part sums as given ---- *)
-Definition part_ok_strict (g : list Q) (cons : list Q) : Prop :=
-  exists ps, length ps = length g /\ Forall (fun p => (p < length cons)%nat) ps /\
+(* [part_ok_t t]: the part indices range over 0 .. t-1; the rows use t = the length of the longest constraint (parts_t), so an
+   element may sit in a part index that the constraint itself does not have (such an element adds to no constrained sum) *)
+Definition part_ok_t (t : nat) (g : list Q) (cons : list Q) : Prop :=
+  exists ps, length ps = length g /\ Forall (fun p => (p < t)%nat) ps /\
              forall j v, nth_error cons j = Some v -> part_sum ps g j == v.
+Definition part_ok_strict (g : list Q) (cons : list Q) : Prop := part_ok_t (length cons) g cons.
+
+Lemma part_ok_t_mono t t' g cons : (t <= t')%nat -> part_ok_t t g cons -> part_ok_t t' g cons.
+Proof.
+  intros Ht (ps & Hl & Hf & Hs). exists ps. split; [exact Hl|]. split; [|exact Hs].
+  eapply Forall_impl; [|exact Hf]. intros p Hp. cbn beta in *. lia.
+Qed.
 
 Definition ppair_sum (j : nat) (l : list (nat * Q)) : Q := sumq (fun p => if (fst p =? j)%nat then snd p else 0) l.
 Lemma part_sum_combine j : forall ps g, length ps = length g -> part_sum ps g j == ppair_sum j (combine ps g).
@@ -402,7 +411,7 @@ Qed.
 Lemma part_sum_pairs j l : part_sum (map fst l) (map snd l) j == ppair_sum j l.
 Proof. induction l as [|[p v] l IH]; cbn [map part_sum fst snd]; [reflexivity|]. unfold ppair_sum in *. cbn [sumq fst snd]. rewrite IH. reflexivity. Qed.
 
-Lemma part_ok_strict_perm g g' cons : Permutation g g' -> part_ok_strict g cons -> part_ok_strict g' cons.
+Lemma part_ok_t_perm t g g' cons : Permutation g g' -> part_ok_t t g cons -> part_ok_t t g' cons.
 Proof.
   intros HP (ps & Hl & Hf & Hs).
   assert (HP' : Permutation g' (map snd (combine ps g))) by (rewrite (map_snd_combine _ _ Hl); symmetry; exact HP).
@@ -415,28 +424,46 @@ Proof.
 Qed.
 
 (* what MinGenSet looks for: a generating multiset, integral when weight_type = int, meeting every partition constraint *)
+Lemma part_ok_strict_perm g g' cons : Permutation g g' -> part_ok_strict g cons -> part_ok_strict g' cons.
+Proof. apply part_ok_t_perm. Qed.
+
 Definition genset_for (I : mgs_inst) (g : list Q) : Prop :=
   genset (mg_mult I) (mg_numbers I) (mg_total I) g /\ (mg_int I = true -> Forall is_int g) /\
   Forall (part_ok_strict g) (parts_of I).
 
+(* EXACTLY what the rows admit (MgsPartsIff.v proves the converse): part indices below the length of the longest constraint *)
+Definition genset_rows (I : mgs_inst) (g : list Q) : Prop :=
+  genset (mg_mult I) (mg_numbers I) (mg_total I) g /\ (mg_int I = true -> Forall is_int g) /\
+  Forall (part_ok_t (parts_t I) g) (parts_of I).
+
+Lemma genset_for_rows I g : genset_for I g -> genset_rows I g.
+Proof.
+  intros (H1 & H2 & H3). split; [exact H1|]. split; [exact H2|]. apply Forall_forall. intros cons Hc. rewrite Forall_forall in H3.
+  apply (part_ok_t_mono (length cons)); [apply len_le_fold_max; exact Hc|apply H3; exact Hc].
+Qed.
+
 (* COMPLETENESS: every such multiset of size k (in any order) is admitted by the rows of _create_solver(k).
    Side conditions: max_multiplicity >= 1 only; nothing about the numbers or the total. *)
-Theorem mgs_enc_complete (I : mgs_inst) (k : nat) (g : list Q) :
-  (1 <= mg_mult I)%nat -> length g = k -> genset_for I g -> exists a, sat a (encode_mgs I k).
+Theorem mgs_enc_complete_rows (I : mgs_inst) (k : nat) (g : list Q) :
+  (1 <= mg_mult I)%nat -> length g = k -> genset_rows I g -> exists a, sat a (encode_mgs I k).
 Proof.
   intros Hm Hl (Hg & Hi & Hparts). pose proof (qsort_perm g) as HP.
   apply (genset_perm _ _ _ _ _ HP) in Hg. destruct Hg as (Hpos & Hsum & Hgen).
   destruct (Forall2_choice (fun a xs => length xs = length (qsort g) /\ Forall (fun x => (0 <= x <= Z.of_nat (mg_mult I))%Z) xs /\ a == dotz xs (qsort g))
               (mg_numbers I)) as (xss & Hx).
   { intros a Ha. destruct (Hgen a Ha) as (xs & H1 & H2 & H3). exists xs. tauto. }
-  destruct (Forall2_choice (fun cons ps => length ps = length (qsort g) /\ Forall (fun p => (p < length cons)%nat) ps /\
+  destruct (Forall2_choice (fun cons ps => length ps = length (qsort g) /\ Forall (fun p => (p < parts_t I)%nat) ps /\
                                              forall j v, nth_error cons j = Some v -> part_sum ps (qsort g) j == v) (parts_of I)) as (pss & Hps).
-  { intros cons Hc. rewrite Forall_forall in Hparts. exact (part_ok_strict_perm _ _ _ HP (Hparts cons Hc)). }
+  { intros cons Hc. rewrite Forall_forall in Hparts. exact (part_ok_t_perm _ _ _ _ HP (Hparts cons Hc)). }
   exists (mgs_assign I (qsort g) xss pss). rewrite <- Hl, (Permutation_length HP).
   apply mgs_assign_sat; try assumption; [apply qsort_sorted|].
   intros Hint. apply Forall_forall. intros v Hv. specialize (Hi Hint). rewrite Forall_forall in Hi. apply Hi.
   eapply Permutation_in; [symmetry; exact HP|exact Hv].
 Qed.
+
+Theorem mgs_enc_complete (I : mgs_inst) (k : nat) (g : list Q) :
+  (1 <= mg_mult I)%nat -> length g = k -> genset_for I g -> exists a, sat a (encode_mgs I k).
+Proof. intros Hm Hl Hg. apply (mgs_enc_complete_rows I k g Hm Hl). apply genset_for_rows. exact Hg. Qed.
 
 (* without partition constraints: the model for k is satisfiable exactly when a generating multiset of size k exists *)
 Theorem mgs_feasible_iff (I : mgs_inst) (k : nat) : mg_parts I = None -> (1 <= mg_mult I)%nat ->
